@@ -215,7 +215,7 @@ def jobs(tier: str, seed: int) -> list[dict]:
                         params=dict(code=code, n=n, depth=depth), budget_s=3 * B,
                         must_cover=['acpc'] + (['pluribus'] if code == 'NT' else [])))
     if tier == 'thorough':
-        for code, n, depth in (('NT', 4, 5), ('NT', 6, 4), ('NT', 5, 4), ('FT', 4, 5), ('FT', 6, 4), ('NT', 3, 6), ('NT', 2, 7)):
+        for code, n, depth in (('NT', 4, 5), ('NT', 6, 3), ('NT', 5, 4), ('FT', 4, 5), ('FT', 6, 4), ('NT', 3, 6), ('NT', 2, 7)):
             out.append(dict(name=f'{code}/n{n}/d{depth}', fn='h_protocol', traced=False,
                             params=dict(code=code, n=n, depth=depth), budget_s=B,
                             must_cover=['acpc'] + (['pluribus'] if code == 'NT' else [])))
